@@ -142,6 +142,29 @@ SCENARIOS['tracker'] = dict(
     groups={}, apps=['a1', 'a2', 'a3', 'a4', 'a5', 'a6'])
 
 
+# several servers offering the same traits under one rack / the cell: aggregated
+# trait sets must survive the removal of whichever child was added first
+SCENARIOS['traits'] = dict(
+    dims=2, racks={'r1': ['s1', 's2', 's3'], 'r2': ['s4']}, pods={},
+    sprofiles=[_sp([2, 2], traits=['t1']), _sp([2, 2], traits=['t1', 't2']), _sp([2, 2], traits=['t2']),
+               _sp([2, 2])],
+    server_init={'s1': 1, 's2': 1, 's3': 2, 's4': 3},
+    allocs={'x': _al(), 'y': _al(traits=['t2'])},
+    aprofiles=[_ap([1, 1], traits=['t1']), _ap([1, 1], traits=['t2']), _ap([1, 1], traits=['t1', 't2']),
+               _ap([1, 1], alloc='y'), _ap([2, 2], traits=['t1'], prio=4)],
+    groups={}, apps=['a1', 'a2', 'a3', 'a4', 'a5'])
+
+# large quantities (2T disks in MB): comparisons must be exact, not "close"
+SCENARIOS['huge'] = dict(
+    dims=2, racks={'r1': ['s1', 's2']}, pods={},
+    sprofiles=[_sp([2097152, 400]), _sp([1048576, 400])],
+    server_init={'s1': 1, 's2': 2},
+    allocs={'x': _al()},
+    aprofiles=[_ap([2097160, 100]), _ap([1048580, 100]), _ap([1048576, 100]), _ap([1048572, 100]),
+               _ap([4, 100]), _ap([2097152, 100], prio=5)],
+    groups={}, apps=['a1', 'a2', 'a3', 'a4', 'a5'])
+
+
 def probeify(hist, rng, scn):
     """C02: turn `Cycle, Submit(a,p), Cycle` into `Cycle, Quiesce, Probe(a,p)` and
     end every history with a probe of a not yet used instance name."""
